@@ -39,11 +39,13 @@ var (
 
 func c03FSRoot() string {
 	c03RootOnce.Do(func() {
-		base := os.Getenv("VSIM_SCRATCH")
-		if base == "" {
-			base = "/verif/.scratch"
+		final := "/verif/.scratch/tree-c03-v1"
+		if _, err := os.Stat(filepath.Join(final, "ready")); err == nil {
+			c03Root = final
+			return
 		}
-		d, err := os.MkdirTemp(base, "fsroot-")
+		os.MkdirAll("/verif/.scratch", 0o755)
+		d, err := os.MkdirTemp("/verif/.scratch", "c03-build-")
 		if err != nil {
 			panic("harness: " + err.Error())
 		}
@@ -52,7 +54,11 @@ func c03FSRoot() string {
 		os.WriteFile(filepath.Join(d, "big.bin"), core.PatternBytes(9, 20000), 0o644)
 		os.MkdirAll(filepath.Join(d, "dir"), 0o755)
 		os.WriteFile(filepath.Join(d, "dir", "index.html"), []byte("<html>index</html>"), 0o644)
-		c03Root = d
+		os.WriteFile(filepath.Join(d, "ready"), []byte("1"), 0o644)
+		if err := os.Rename(d, final); err != nil {
+			os.RemoveAll(d)
+		}
+		c03Root = final
 	})
 	return c03Root
 }
